@@ -14,6 +14,7 @@ import (
 	"strings"
 	"sync"
 	"time"
+	"unicode/utf8"
 
 	"github.com/gobwas/httphead"
 	"github.com/gobwas/ws"
@@ -36,6 +37,15 @@ func init() {
 	r8Wrap("C03", r8C03)
 	r8Wrap("C12", r8C12)
 	r8Wrap("C06", r8C06)
+	for _, id := range []string{"C04", "C07", "C18"} {
+		r8Wrap(id, r8RDE)
+	}
+	replayers["RDE"] = func(c *ctx, in []string) {
+		side, _ := strconv.Atoi(in[0])
+		runRDE(c, byte(side), parseFrames(in[1]), in[2])
+	}
+	r8Wrap("C05", r8C05)
+	r8Wrap("C08", r8C08RM)
 	r8Wrap("C08", r8C08)
 	r8Wrap("C16", r8C08)
 	replayers["CHC"] = func(c *ctx, in []string) {
@@ -437,6 +447,164 @@ func r8C08(c *ctx) {
 						}
 						c08Cut(c, side, op, p, key, []string{"handle", "cfh"}[(k+ti)%2], k, tail)
 					}
+				}
+			}
+		}
+	}
+}
+
+// r8-C18b / r8-C07: a reader goes on after an invalid text message. RDE: every message is read to its end; when Read
+// reports invalid UTF-8 the message is discarded (Discard) and the loop goes on with the next message, which must be
+// judged exactly as a new reader would judge it. Verdict per message against unicode/utf8 on the concatenated payload
+// (text) or "ok" (binary; top-level control frames: their payload is never subject to the check).
+//
+//	RDE <side> <frames> <bufs> -> <observed verdicts> <expected verdicts> <final error class>
+func runRDE(c *ctx, side byte, fs []sframe, bufs string) {
+	w := wireOf(fs)
+	var evs []event
+	var ms wsflate.MessageState
+	rd := newReader(bytes.NewReader(w), rcfg{state: side, chk: true, cb: 1}, &evs, &ms)
+	sizes := intsSpec(bufs)
+	var got []string
+	final := "eof"
+	for m := 0; m < len(fs)+2; m++ {
+		hdr, err := rd.NextFrame()
+		if err != nil {
+			final = readErrClass(err)
+			break
+		}
+		verdict := ""
+		for i := 0; verdict == "" && i < 2*len(w)+10; i++ {
+			_, e := rd.Read(make([]byte, sizes[i%len(sizes)]))
+			switch {
+			case e == io.EOF:
+				verdict = "ok"
+			case e == wsutil.ErrInvalidUTF8:
+				verdict = "invalid"
+				if de := rd.Discard(); de != nil {
+					verdict = "invalid+" + readErrClass(de)
+				}
+			case e != nil:
+				verdict = "err:" + readErrClass(e)
+			}
+		}
+		got = append(got, fmt.Sprintf("%d:%s", hdr.OpCode, verdict))
+		if strings.HasPrefix(verdict, "err:") {
+			break
+		}
+	}
+	// expected
+	var want []string
+	var cur []byte
+	var curOp byte
+	open := false
+	for _, f := range fs {
+		switch {
+		case f.op >= 8 && !open:
+			want = append(want, fmt.Sprintf("%d:ok", f.op))
+		case f.op >= 8:
+			// intermediate: handled by the callback, not a message of its own
+		default:
+			if !open {
+				cur, curOp, open = nil, f.op, true
+			}
+			cur = append(cur, f.payload...)
+			if f.fin {
+				v := "ok"
+				if curOp == 1 && !utf8.Valid(cur) {
+					v = "invalid"
+				}
+				want = append(want, fmt.Sprintf("%d:%s", curOp, v))
+				open = false
+			}
+		}
+	}
+	c.emit("RDE %d %s %s -> %s %s %s", side, framesTok(fs), bufs, strings.Join(got, ","), strings.Join(want, ","), final)
+}
+
+func r8RDE(c *ctx) {
+	for _, side := range []byte{1, 2} {
+		mk := func(op byte, fin bool, p string) sframe {
+			f := c.mkFrame(side, fin, op, 0)
+			f.payload = []byte(p)
+			return f
+		}
+		bads := [][]sframe{
+			{mk(1, true, "ab\xff")}, {mk(1, true, "caf\xc3")}, {mk(1, false, "ab"), mk(0, true, "\xe2\x82")}, {mk(1, false, "x\xe2"), mk(0, true, "")},
+			{mk(1, false, "ok"), mk(0, false, "\xff"), mk(0, true, "tail")}, {mk(1, true, "\xed\xa0\x80")},
+		}
+		nexts := [][]sframe{
+			{mk(1, true, "valid \xe2\x82\xac text")}, {mk(2, true, "\xff\xfe binary")}, {mk(1, false, "\xc3"), mk(0, true, "\xa9")},
+			{mk(9, true, "\xff"), mk(1, true, "after a ping with a non-UTF-8 payload")}, {mk(10, true, "\xc3"), mk(2, true, "b")}, {mk(1, true, "\xac starts with a continuation byte")},
+		}
+		for bi, b := range bads {
+			for ni, n := range nexts {
+				fs := append(append([]sframe(nil), b...), n...)
+				fs = append(fs, mk(1, true, "last"))
+				runRDE(c, side, fs, bufSpecs[(bi+ni)%len(bufSpecs)])
+			}
+		}
+		// control frames with payloads that are not UTF-8, alone between valid messages
+		for _, op := range []byte{9, 10} {
+			runRDE(c, side, []sframe{mk(1, true, "one"), mk(op, true, "\xff\xfe\xfd"), mk(1, true, "two"), mk(op, true, "\xe2\x82"), mk(2, true, "\xac")}, "4096")
+		}
+	}
+}
+
+// r8-C05: a 64-bit length with its top bit set is refused by BOTH decoders, whatever the low bits say (a header
+// announcing 0x8000000000000005 followed by 5 bytes is not a 5-byte frame), alone and behind valid frames, with and
+// without a size limit
+func r8C05(c *ctx) {
+	for _, side := range []byte{1, 2} {
+		for _, low := range []uint64{0, 5, 125, 126, 70000} {
+			for _, hi := range []uint64{1 << 63, 0xff << 56, 1<<63 | 1<<32} {
+				b := []byte{0x82, 127}
+				if side == 1 {
+					b[1] |= 0x80
+				}
+				v := hi | low
+				for s := 56; s >= 0; s -= 8 {
+					b = append(b, byte(v>>uint(s)))
+				}
+				if side == 1 {
+					b = append(b, 1, 2, 3, 4)
+				}
+				b = append(b, bytes.Repeat([]byte{'x'}, int(low%200))...)
+				c01D(c, b, "-", "eof")
+				pre := wireOf([]sframe{c.mkFrame(side, true, 1, 3)})
+				for _, e := range []string{"rd", "rm", "rx"} {
+					entry := e + strconv.Itoa(int(side))
+					fz(c, entry, b)
+					fz(c, entry, append(append([]byte(nil), pre...), b...))
+				}
+				fz(c, "rd"+strconv.Itoa(int(side))+"m", b)
+			}
+		}
+	}
+}
+
+// r8-C08: SEVERAL control frames between the fragments of one message through ReadMessage: every returned control message
+// keeps its own payload (they are then answered by HandleControlMessage: the pong for the first ping carries the first
+// ping's bytes)
+func r8C08RM(c *ctx) {
+	for _, side := range []byte{1, 2} {
+		for _, sizes := range [][]int{{5, 7}, {70, 70}, {125, 1}, {40, 40, 40, 40}, {0, 3, 0}, {125, 125, 125}} {
+			fs := []sframe{c.mkFrame(side, false, 2, 4)}
+			for i, n := range sizes {
+				f := c.mkFrame(side, true, []byte{9, 10}[i%2], 0)
+				f.payload = patBytes(n, i+11)
+				fs = append(fs, f, c.mkFrame(side, false, 0, 2))
+			}
+			fs = append(fs, c.mkFrame(side, true, 0, 3))
+			runRM(c, "RM", side, fs, "-", chunkSpecs[len(sizes)%len(chunkSpecs)], "eof")
+			// ... and each of them answered
+			msgs, err := wsutil.ReadMessage(bytes.NewReader(wireOf(fs)), ws.State(side), nil)
+			if err != nil {
+				continue
+			}
+			for _, m := range msgs {
+				if m.OpCode.IsControl() {
+					c08H(c, side, byte(m.OpCode), m.Payload, "-", "hcm2", "-")
 				}
 			}
 		}
